@@ -15,6 +15,11 @@ TriSet(nv) == {<<a, b, d>> : a, b, d \in 0..(nv - 1)} \cap {t \in [1..3 -> 0..(n
 TriSeqs(nv, k) == UNION {[1..j -> TriSet(nv)] : j \in 0..k}
 Meshes == UNION {{[nv |-> nv, tris |-> T] : T \in TriSeqs(nv, IF nv = MaxV THEN MaxT - 1 ELSE MaxT)} : nv \in 1..MaxV}
 NonEmptySubsets(nv) == SubsetSeqs(0..(nv - 1)) \ {<<>>}
+\* beyond the exhaustive bound: fixed meshes whose triangles interleave over the vertices (two skin partitions built from
+\* alternate triangles get vertex maps that are not prefixes of the vertex list), with every subset of at most two indices
+BigMeshes == {[nv |-> 7, tris |-> <<<<0, 2, 3>>, <<1, 4, 5>>, <<3, 5, 6>>, <<2, 4, 6>>>>],
+              [nv |-> 8, tris |-> <<<<1, 3, 5>>, <<0, 2, 4>>, <<3, 5, 7>>, <<2, 4, 6>>, <<0, 1, 7>>>>]}
+SmallSubsets(nv) == {<<a>> : a \in 0..(nv - 1)} \cup {q \in [1..2 -> 0..(nv - 1)] : q[1] < q[2]}
 \* C17: segmentation info with ids permuted: seg A (+ two subs), seg B; label lists over the ids and -1
 SegInfos == {<<[id |-> 0, subs |-> <<1, 2>>], [id |-> 3, subs |-> <<>>]>>, <<[id |-> 2, subs |-> <<0>>], [id |-> 1, subs |-> <<>>]>>,
              <<[id |-> 0, subs |-> <<>>]>>, <<[id |-> 1, subs |-> <<>>], [id |-> 0, subs |-> <<>>], [id |-> 2, subs |-> <<3>>]>>}
@@ -23,6 +28,7 @@ Labels(info) == {-1} \cup ToSet(FlatIds(info))
 SetOps == {[op |-> o, v |-> v] : o \in {"verts", "vertsN", "uvs", "normals", "tangents", "bitangents", "colors", "eye", "tris", "reload"}, v \in 0..2}
 Cases ==
     CASE Family = "delverts" -> UNION {{[k |-> "delverts", nv |-> m.nv, tris |-> m.tris, I |-> I] : I \in NonEmptySubsets(m.nv)} : m \in Meshes}
+                                \cup UNION {{[k |-> "delverts", nv |-> m.nv, tris |-> m.tris, I |-> I] : I \in SmallSubsets(m.nv)} : m \in BigMeshes}
       [] Family = "segments" -> UNION {{[k |-> "segments", nt |-> nt, info |-> info, L |-> L] : L \in [1..nt -> Labels(info)]} : nt \in 0..MaxT, info \in SegInfos}
       [] Family = "setget" -> {[k |-> "setget", h |-> h] : h \in UNION {[1..n -> SetOps] : n \in 1..MaxT}}
       [] Family = "convert" -> {[k |-> "convert", toSSE |-> d, headParts |-> hp, removeParallax |-> rp, calcBounds |-> cb, fixBSX |-> fb, fixShader |-> fs,
